@@ -172,13 +172,8 @@ def check_case(ref, W, fs, s, baseline=None):
     # what the expression denotes is taken from the reference unfolding (mc.ref.search, the oracle of C07) wherever that is
     # unambiguous, not from the implementation's unfold_search: a Finder that searches fewer typed forms answers differently
     from mc.ref import search as rs
-    try:
-        req, alw = rs.denote(ref, s)
-        if not spilexc and req == alw and not rs.GROUPS and {t + ":" + st for t, st in typed} != req:
-            order = {t + ":" + st: i for i, (t, st) in enumerate(typed)}
-            typed = [tuple(u.split(":", 1)) for u in sorted(req, key=lambda u: (order.get(u, len(order)), u))]
-    except rs.SpilExc:
-        pass
+    if not spilexc:
+        typed = rs.denoted_typed(ref, s, typed)
     ans = {}
     for name, f in fs.items():
         st, r = run_finder(f, s)
